@@ -27,12 +27,14 @@ type spec struct {
 	Ops   int    `json:"ops"`
 	Yield bool   `json:"yield"`
 	Rep   int    `json:"rep"`
-	Kind  string `json:"kind,omitempty"` // "" (mixer) | startonce | heldreply | dialpark | dialopt | parkrecv | closedial
+	Kind  string `json:"kind,omitempty"` // "" (mixer) | startonce | heldreply | dialpark | dialopt | parkrecv | closedial | multipark | burstclose
 	// heldreply: Mode dup|recv, QLen = WriteQLen, K = concurrent Sends, Ctx = context (not socket), Sim = simultaneous Sends on a second context
 	// dialpark:  Mode listener|socket (what is closed), Ev = hook event that occupies the accept loop, Pass = connections before it, K = Dials in progress, Ctx = dialers share one socket
 	// dialopt:   Mode hangup|close (what ends the scenario), Ev = outer|inner (TLS transports: the peer is silent before / after the TLS handshake), K = calls made while the Dial is parked
 	// parkrecv:  Mode = the first call made while the Recv is parked, K = number of calls, Ctx = Recv on a context, Pass = 2 or 3 subscriptions (SUB), Sim = the receiving socket listens
 	// closedial: Mode drop-peer|drop-local|backoff (what armed the reconnect timer), Ev = dialer|socket (what is closed), K = reconnect time in ms, Ctx = DialAsynch, Pass = refused redials before the Close (backoff)
+	// multipark: K = listeners on different inproc addresses, QLen = Dials parked per address, Ev = hook event, Pass = connections before it, Sim = release in reverse parking order
+	// burstclose: Mode listener|socket (what is closed during the burst), Pass = bursts per case
 	Mode string `json:"mode,omitempty"`
 	QLen int    `json:"qlen,omitempty"`
 	K    int    `json:"k,omitempty"`
@@ -139,9 +141,26 @@ func TestC11(t *testing.T) {
 		sp := spec{Kind: "closedial", Proto: cdProtos[rnd.Intn(len(cdProtos))], Tran: cb[0], Mode: cb[1], Ev: cb[2], K: []int{60, 100, 150}[rnd.Intn(3)], Ctx: rnd.Intn(3) == 0, Pass: rnd.Intn(2), Rep: i}
 		cases = append(cases, mon.CaseSpec{Name: "closedial/" + sp.Tran + "/" + sp.Mode + "/" + sp.Ev, Spec: sp})
 	}
+	// dialers parked on DIFFERENT inproc addresses at one moment; the accept loops resume one at a time
+	for i := 0; i < r.Pick(16, 200); i++ {
+		sp := spec{Kind: "multipark", Proto: dpProtos[rnd.Intn(len(dpProtos))], Tran: "inproc", K: 2 + rnd.Intn(2), QLen: 1 + rnd.Intn(2),
+			Ev: []string{"attaching", "attached"}[rnd.Intn(2)], Pass: rnd.Intn(2), Sim: rnd.Intn(3) != 0, Rep: i}
+		cases = append(cases, mon.CaseSpec{Name: "multipark/inproc", Spec: sp})
+	}
+	// Listener.Close / Socket.Close during a burst of Dials from other goroutines: every connection is let go
+	bcTrans := []string{"ws", "wss", "ws", "tcp", "wss", "ws", "tls+tcp", "ipc"}
+	for i := 0; i < r.Pick(24, 320); i++ {
+		tr := bcTrans[i%len(bcTrans)]
+		sp := spec{Kind: "burstclose", Proto: dpProtos[rnd.Intn(len(dpProtos))], Tran: tr, Mode: []string{"listener", "socket"}[rnd.Intn(2)], Pass: r.Pick(6, 10), Rep: i}
+		cases = append(cases, mon.CaseSpec{Name: "burstclose/" + tr + "/" + sp.Mode, Spec: sp})
+	}
 	r.Run(cases, func(c *mon.Case) {
 		sp := c.Spec.(spec)
 		switch sp.Kind {
+		case "multipark":
+			multiPark(c, sp)
+		case "burstclose":
+			wsClose(c, sp)
 		case "parkrecv":
 			parkRecv(c, sp)
 		case "closedial":
